@@ -78,7 +78,9 @@ func (a *App) Start() error {
 
 func (a *App) Stop() error {
 	a.Logger.Debug().Logf("Shutting down App...")
-	if a.Config.GetOpAMPConfig().Enabled {
+	// NewAgent returns nil when the agent could not be started, and Enabled may
+	// have changed since Start
+	if a.opampAgent != nil {
 		a.opampAgent.Stop(context.Background())
 	}
 	return nil
